@@ -24,7 +24,8 @@ add("C02",
     "every prefix score, the final score and the returned segmentation are compared with an O(n^2) un-pruned "
     "dynamic programme that is itself self-tested against exhaustive enumeration; detectors may have a past (cost pre-fitted on wider "
     "data, buffer refilled in place) and whole-numbered data may arrive as int64 counts; a long_series facet compares every prefix "
-    "score of series of up to 33000 samples with the same recursion. Bounded exploration "
+    "score of series of up to 33000 samples with the same recursion; a default_settings facet runs the default hyper-parameters on seeded realistic "
+    "series of 100-400 samples. Bounded exploration "
     "(n<=16 tables, n<=100 data), not a proof.",
     "Trusted: NumPy/pandas/sktime; oracle in /verif/oracles/reference.py; for built-in costs the cost table "
     "comes from a fresh instance of the same cost class (cost values themselves are decided by C01) and "
@@ -37,7 +38,8 @@ add("C01",
     "parameters and interval batches; each returned row is compared with the cost computed directly from X[s:e] under a stated "
     "rounding-error enclosure; singular slices must raise the documented error; rows must not depend on the batch; invalid "
     "fixed parameters must raise ValueError; refilled buffers, bystander objects of the same class and a wide_data facet (p up to 160, "
-    "units 1e-3..1e3) are included. Bounded exploration (n<=120 with p<=4, n~4p for wide data).",
+    "units 1e-3..1e3) and a structured_batches facet (back-to-back, common-end / common-start and nested batches on series of up to 6000 samples) are "
+    "included. Bounded exploration (n<=120 with p<=4, n~4p for wide data).",
     "Trusted: NumPy long double arithmetic, the error model B=32(N+1)^2 eps M^2 of DESIGN.md 3.4; ill-conditioned multivariate "
     "slices (cond>1e10) accept either outcome.",
     "DESIGN.md section 4, C01")
@@ -49,7 +51,8 @@ add("C03",
     "score, the re-evaluated reported anomalies, interval well-formedness and ignore_point_anomalies are compared with an un-pruned "
     "DP that is self-tested against exhaustive enumeration; further facets place MVCAPA cases at the pruning boundary, run 12000 cheap "
     "small-integer series per quick run with a binding max_segment_length, and compare series of up to 66000 samples with the un-pruned "
-    "recursion. Bounded exploration (n<=14 tables, n<=100 structured data, long series with bounded max_segment_length).",
+    "recursion; default_settings on seeded realistic series. Bounded exploration (n<=14 tables, n<=100 structured data, long series with bounded "
+    "max_segment_length).",
     "Trusted: oracle in oracles/reference.py; built-in penalty functions are inputs here (pinned by C15); optimality asserted only "
     "where the evaluated savings are sub-additive and non-negative.",
     "DESIGN.md section 4, C03")
@@ -81,7 +84,8 @@ add("C13",
     "ones must be accepted and equal the definitional value in every dtype; plus generated float/bool/wrong-width/0-row/3-D/"
     "list/row-vector/flat-multiple arguments, mixed batches, descending unsigned rows, rows overflowing narrow signed dtypes "
     "and pandas containers; and a coverage-guided fuzzing campaign (atheris, 120k executions quick / 6.4M thorough) over a "
-    "structured decoder of container x dtype x shape x values with the same oracle inside the target. The box facet is exhaustive.",
+    "structured decoder of container x dtype x shape x values with the same oracle inside the target. The box facet is exhaustive. Two further "
+    "facets use scorers that have just raised the documented error (directly or inside a detector) or whose re-fit raised, and hold them to the same predicate.",
     "Trusted: the validity predicate written from the property and the documented minimum sizes (1, 2, p+1); fixed "
     "well-conditioned data per (n,p).",
     "DESIGN.md section 4, C13")
